@@ -33,6 +33,9 @@ CONFIG = {
 }
 
 
+is_risky = layergen.is_risky  # image dilation > 1: isolated child process (XLA compiler aborts on some of them)
+
+
 def draw_case(data, tier):
     case = layergen.draw_layer_case(data, symmetric_only=True, unit_stride=True)
     case["mode"] = data.draw(st.sampled_from(["basis", "rand"]), label="mode")
